@@ -372,6 +372,8 @@ pub struct Model {
     pub inplace_dirty: bool,
     /// checkpoints (flush / VACUUM / reopen) so far, and the value it had when each row got its delete mark
     pub ckpt_epoch: u32,
+    /// transactions that had written when a checkpoint ran (crash checks only)
+    pub ckpt_writers: BTreeSet<Tx>,
     #[serde(skip)]
     pub delete_epoch: BTreeMap<(usize, usize), u32>,
     /// transactions with an in-place-update hazard pending (KF-update-in-place)
@@ -431,6 +433,7 @@ impl Model {
             exact_updates: false,
             inplace_dirty: false,
             ckpt_epoch: 0,
+            ckpt_writers: BTreeSet::new(),
             delete_epoch: BTreeMap::new(),
             pending_update: BTreeSet::new(),
             pending_reinsert: BTreeSet::new(),
@@ -440,6 +443,11 @@ impl Model {
             max_committed: None,
             last_commit_out_of_order: false,
         }
+    }
+
+    /// checkpoint-time writers whose fate is still open
+    pub fn undecided_ckpt_writers(&self) -> usize {
+        self.ckpt_writers.iter().filter(|t| self.txs[**t as usize].state == TxState::Active).count()
     }
 
     pub fn tainted(&self) -> bool {
@@ -1196,6 +1204,13 @@ impl Model {
                 let open: Vec<Tx> = self.sessions.values().copied().filter(|t| self.txs[*t as usize].state == TxState::Active).collect();
                 let wrote = |t: Tx| self.tables.iter().any(|tb| tb.created_by == t || tb.dropped_by == Some(t) || tb.rows.iter().any(|r| r.xmax == Some(t) || r.versions.iter().any(|(x, _)| *x == t)));
                 if open.iter().any(|t| wrote(*t)) {
+                    if self.enabled_hazards.contains(KF_CHECKPOINT_OPEN_WRITER) && !self.exact_updates {
+                        // crash checks: the finding concerns crashes while such a writer is still undecided; the writers
+                        // are remembered and the crash engine classifies crash points by them (see `ckpt_writers`)
+                        let ws: Vec<Tx> = open.iter().copied().filter(|t| wrote(*t)).collect();
+                        self.ckpt_writers.extend(ws);
+                        return vec![Exp::Unit];
+                    }
                     self.hazard(KF_CHECKPOINT_OPEN_WRITER);
                 }
                 vec![Exp::Unit]
